@@ -377,9 +377,11 @@ func (v *Validator) DecodeRLP(s *rlp.Stream) error {
 	v.Delegations = r.Delegations
 	v.Ext = r.Ext
 
-	if r.Expelled == 1 {
-		v.Expelled = true
+	// EncodeRLP writes 0 or 1; anything else is not the encoding of a validator
+	if r.Expelled > 1 {
+		return fmt.Errorf("rlp: invalid expelled flag %d in validator record", r.Expelled)
 	}
+	v.Expelled = r.Expelled == 1
 	return nil
 }
 
@@ -1027,6 +1029,12 @@ func (index *ValidatorIndex) DecodeRLP(s *rlp.Stream) error {
 	var list addressList
 	if err := s.Decode(&list); err != nil {
 		return err
+	}
+	// EncodeRLP writes the addresses in ascending order, each once; accept nothing else
+	for i := 1; i < len(list); i++ {
+		if bytes.Compare(list[i-1].Bytes(), list[i].Bytes()) >= 0 {
+			return fmt.Errorf("rlp: validator index not in strictly ascending order at position %d", i)
+		}
 	}
 	for _, addr := range list {
 		index.data.Store(addr, nil)
